@@ -344,5 +344,10 @@ CHECKS["C09"]["quick"] += S_UNSUB[:3]
 CHECKS["C09"]["thorough"] += S_UNSUB[3:]
 CHECKS["C09"]["bounds"] += "; unsubscribe(B) from another thread placed at 5 scheduling points before/between notification rounds (K=1)"
 
+_W_ROUND = "REAL do_notify with 3 scripted subscribers; while the round is in progress (inside one subscriber's callback) another subscriber's entry is removed from the shared list, which is the effect of a concurrent unsubscribe() on it; oracle: the subscribers registered for the whole run are called exactly once for this action and for the next one (33 M SAT variables: thorough tier only)"
+U_ROUND_T = [_us("u_subs_round_first_leaves_in_own_callback", _W_ROUND, "A removed during A's callback", timeout_s=2400, mem_gb=44), _us("u_subs_round_first_leaves_during_second", _W_ROUND, "A removed during B's callback", timeout_s=2400, mem_gb=44)]
+CHECKS["C03"]["thorough"] += U_ROUND_T[:1]
+CHECKS["C09"]["thorough"] += U_ROUND_T
+
 HOOK_COMMITS = ['da8b80e', '8cd617e', '39efd23']
 NOT_APPLICABLE = {}
